@@ -12,6 +12,7 @@ d  a write registers writer interest; interest is removed when the buffer has dr
 """
 
 import ast
+import re
 
 from sa import AnalysisError, pat
 from sa import query as Q
@@ -71,6 +72,10 @@ def endpoint(repo, chk, on_write):
     is_file = on_write.module.relpath == FILE
     chk.touch(on_write)
     buf = _buffer_of(on_write)
+    bufset = {buf}
+    m_ = re.match(r'^(.*)\[(\w+)\]$', buf or '')
+    if m_:
+        bufset.add(f'{m_.group(1)}.get({m_.group(2)})')   # reading without creating a defaultdict entry
     g = on_write.cfg()
     # --- the pop and the hand-over to the write routine
     pops = [n for n in g.nodes if n.kind == 'stmt' and isinstance(n.ast, ast.Assign) and any(r == buf for r, _c in pat.method_calls(n.ast, 'popleft'))]
@@ -80,7 +85,7 @@ def endpoint(repo, chk, on_write):
     p = Q.escapes(g, [pops[0]], lambda n: n in wcalls)
     chk.ob('a', on_write.ref, 'the popped payload is handed to the write routine on every path', p is None and bool(wcalls), loc(on_write, pops[0].ast),
            path=pat.path_lines(p, pops[0]) if p else None, discr='pop-handed-over')
-    q = pat.guarded_by(g, pops[0], pat.test_edge(lambda tt, pol: pol == 'T' and src(tt) == buf))
+    q = pat.guarded_by(g, pops[0], pat.test_edge(lambda tt, pol: pol == 'T' and src(tt) in bufset))
     chk.ob('b', on_write.ref, 'the buffer is popped only when it is non-empty', q is None, loc(on_write, pops[0].ast), discr='pop-guard')
     chk.ob('b', on_write.ref, 'exactly one payload is taken per writability event', len(pops) == 1 and not any(k == 'loop' for k, _a in pops[0].ctx),
            loc(on_write, pops[0].ast), discr='one-per-event')
@@ -95,8 +100,9 @@ def endpoint(repo, chk, on_write):
     gw = wh.cfg()
     dv = wh.params[-1]
     app = [n for n in gw.nodes if n.kind == 'stmt' and any(r == buf and [src(a) for a in c.args] == [dv] for r, c in pat.method_calls(n.ast, 'append'))]
-    p = Q.escapes(gw, [gw.entry], lambda n: n in app)
-    chk.ob('b', wh.ref, 'write() appends the payload at the end of the buffer on every path', p is None and bool(app), loc(wh, wh.node),
+    gone_w = pat.test_edge(lambda tt, pol: len(wh.params) > 2 and pat.fact_matches(pat.compare_fact(tt, pol), wh.params[1], ('not in',), 'self._clients'))
+    p = Q.escapes(gw, [gw.entry], lambda n: n in app, avoid_edge=gone_w)
+    chk.ob('b', wh.ref, 'write() appends the payload at the end of the buffer on every path (a connection that is gone is ignored)', p is None and bool(app), loc(wh, wh.node),
            path=pat.path_lines(p) if p else None, discr='append')
     bad = [c for m in cls.methods.values() for r, c in pat.method_calls(m.node, 'appendleft') if r == buf and m.name != '_write'] + \
           [c for m in cls.methods.values() for r, c in pat.method_calls(m.node, 'pop') if r == buf] + \
@@ -107,11 +113,12 @@ def endpoint(repo, chk, on_write):
     # --- d: writer interest
     addw = [n for n in gw.nodes if n.kind == 'stmt' and any(r == 'self._poller' for r, _c in pat.method_calls(n.ast, 'addWriter'))]
     p = Q.escapes(gw, [gw.entry], lambda n: n in addw, avoid_edge=pat.test_edge(
-        lambda tt, pol: (pol == 'T' and 'isWriting' in src(tt)) or (is_file and pat.fact_matches(pat.compare_fact(tt, pol), 'self._poller', ('is', '=='), 'None'))))
+        lambda tt, pol: (pol == 'T' and 'isWriting' in src(tt)) or (is_file and pat.fact_matches(pat.compare_fact(tt, pol), 'self._poller', ('is', '=='), 'None'))
+        or (len(wh.params) > 2 and pat.fact_matches(pat.compare_fact(tt, pol), wh.params[1], ('not in',), 'self._clients'))))
     chk.ob('d', wh.ref, 'write() registers writer interest unless it is already registered', p is None and bool(addw), loc(wh, wh.node),
            path=pat.path_lines(p) if p else None, discr='interest-on-write')
     # drain path in on_write: buffer empty ⇒ deferred close performed, else interest removed
-    empty_edges = [e for n in g.nodes if n.kind == 'test' and src(n.ast) == buf for e in n.succ if e.kind == 'F']
+    empty_edges = [e for n in g.nodes if n.kind == 'test' and src(n.ast) in bufset for e in n.succ if e.kind == 'F']
     closes = [n for n in g.nodes if n.kind == 'stmt' and any(r == 'self' for r, _c in pat.method_calls(n.ast, '_close'))]
     remw = [n for n in g.nodes if n.kind == 'stmt' and any(r == 'self._poller' for r, _c in pat.method_calls(n.ast, 'removeWriter'))]
     after_write = [e for e in empty_edges if any(Q.reaches(w, e.src) for w in wcalls)]
@@ -126,17 +133,17 @@ def endpoint(repo, chk, on_write):
         chk.ob('d', on_write.ref, 'once the buffer has drained (and no close is pending) writer interest is removed', p is None and bool(remw),
                loc(on_write, e.src.ast), path=pat.path_lines(p) if p else None, discr='interest-removed')
     for cn in closes:
-        q = pat.guarded_by(g, cn, pat.test_edge(lambda tt, pol: pol == 'F' and src(tt) == buf))
+        q = pat.guarded_by(g, cn, pat.test_edge(lambda tt, pol: pol == 'F' and src(tt) in bufset))
         chk.ob('c', on_write.ref, 'the drain path closes only when the buffer is empty', q is None, loc(on_write, cn.ast), discr='close-when-empty')
     for rn in remw:
-        q = pat.guarded_by(g, rn, pat.test_edge(lambda tt, pol: pol == 'F' and src(tt) == buf))
+        q = pat.guarded_by(g, rn, pat.test_edge(lambda tt, pol: pol == 'F' and src(tt) in bufset))
         chk.ob('d', on_write.ref, 'writer interest is removed only when the buffer is empty', q is None, loc(on_write, rn.ast), discr='remove-when-empty')
     # --- c: close()
     ch = cls.lookup('close')
     need(ch, f'C11.c: {cls.ref} has no close()')
     chk.touch(ch)
     gc = ch.cfg()
-    bufs = {buf} | ({'self._buffers[sock]'} if 'sock' in ch.params or 'self._buffers' in buf else set())
+    bufs = set(bufset) | ({'self._buffers[sock]', 'self._buffers.get(sock)'} if 'sock' in ch.params or 'self._buffers' in buf else set())
     ccl = [n for n in gc.nodes if n.kind == 'stmt' and any(r == 'self' for r, _c in pat.method_calls(n.ast, '_close'))]
     need(ccl, f'C11.c: {ch.ref} never closes')
     for cn in ccl:
